@@ -51,6 +51,9 @@ def gen(rng, tier):
             st["join"], st["python"], ",".join(enc(x.encode()) for x in st["pd"]), ",".join(enc(x.encode()) for x in st["cd"]),
             enc(st["root"].encode()) if st["root"] is not None else "-"))
         out.append(s)
+    # objects that were not created through an option string carry the defaults
+    out.append(Scenario(["newkf 0 61 35", "opts 0", "newini 1", "opts 1", "newempty 2", "opts 2",
+                         gens.parse_cmd(3, b"/o/f.conf", b"k=1\nk=2\n", b"=", b"#"), "opts 3", "get 3 string - x6b -"], tags=("defaults",)))
     for _ in range(n):
         # join: repeated keys
         keys = [b"k", b"k", b"k", b"other"]
